@@ -142,7 +142,10 @@ CLAIMS = {
             "staged theorems by shape of type and default, each with a concrete instance); Refine.class_refines lifts it to ANY number of attributes (the statement-level round trip mapped over the parameter list IS (norm .cls ir).params). The ties are differential runs: "
             "whole description and every entry alone (Kinds.dom_single / norm_single justify the decomposition) against the "
             "real emit -> ast.unparse -> ast.parse -> parse, plus param2ast and the attribute parser against the real "
-            "functions on every entry. The property predicate (names, order, types, prose, explicit "
+            "functions on every entry, and - since round h - the WHOLE kind at statement level (ClassKind.classKindRT: "
+            "emit.class_ with the return entry folded in, the docstring by to_docstring with its text replacements, the "
+            "attributes built from the entries as to_docstring left them, inspect.cleandoc, parse.docstring, the attribute "
+            "merge of parse.class_, _set_name_and_type) against the real round trip of every case without wrapping. The property predicate (names, order, types, prose, explicit "
             "defaults with their Python type, permitted normalisation only) runs on the real code for every case, inside and "
             "outside that domain; the classes where it fails today are recorded findings."
         ),
@@ -159,7 +162,12 @@ CLAIMS = {
             "func_arg2param and _infer_default IS Kinds.normFuncParam on the typed domain) and Sig.pairArgs_get / "
             "emit_then_pair (the padding + pairing step of parse.function gives every argument its own default; old-code "
             "witness pairArgsOld_shifts); Refine.func_refines lifts funcRT_eq_norm to ANY number of parameters. The ties are differential runs: whole description, every entry alone, and the "
-            "func_attr layer, through the emitted text and (30% of the cases) tree to tree, against the real code. The property predicate (names, order, types, prose, explicit "
+            "func_attr layer, through the emitted text and (30% of the cases) tree to tree, against the real code; and - since "
+            "round h - statement-level models of the whole kind: ToDocstring.toDocstring (emitter_utils.to_docstring), "
+            "FuncDoc.cleandoc / funcDocRT (inspect.cleandoc; the docstring half of the round trip) and FuncKind.funcKindRT "
+            "(emit.function followed by parse.function on whole descriptions: signature, docstring, **kwargs set aside, "
+            "func_arg2param, ir_merge, _set_name_and_type, return annotation), each tied by its own layer (to_docstring, "
+            "func_doc_rt, func_kind) on every case; no theorem yet speaks about these three as a whole. The property predicate (names, order, types, prose, explicit "
             "defaults with their Python type, permitted normalisation only) runs on the real code for every case, inside and "
             "outside that domain; the classes where it fails today are recorded findings."
         ),
